@@ -45,15 +45,17 @@ def canonMsg (bs : Bytes) : String :=
      | _ => "raw:" ++ VL.hexEncode bs)
   | none => "raw:" ++ VL.hexEncode bs
 
-def parseMethods : Nat → P (List Method)
+/-- every IDL function with its streaming mode ("-" = none); the model applies the backend's filter -/
+def parseFns : Nat → P (List Fn)
   | 0, r => some ([], r)
-  | n+1, nm :: a :: res :: ow :: vd :: nt :: r => do
+  | n+1, nm :: a :: res :: ow :: vd :: nt :: md :: r => do
       let name ← VL.hexDecode nm
       let ai ← a.toNat?
       let ri := (res.toNat?).getD 0
       let k ← nt.toNat?
-      let (ms, r) ← parseMethods n r
-      some ({ name := name, args := ai, result := ri, oneway := ow == "1", void := vd == "1", nthrows := k } :: ms, r)
+      let (ms, r) ← parseFns n r
+      some ({ m := { name := name, args := ai, result := ri, oneway := ow == "1", void := vd == "1", nthrows := k },
+              mode := if md == "-" then none else some md } :: ms, r)
   | _, _ => none
 
 def parseAnswer : P Answer
@@ -132,8 +134,9 @@ def step (s : St) (line : String) : St × String :=
     | "V" :: u :: si :: base :: n :: rest =>
       (match si.toNat?, n.toNat?, s.progs.get u with
        | some i, some k, some P =>
-         (match parseMethods k rest with
-          | some (ms, []) =>
+         (match parseFns k rest with
+          | some (fns, []) =>
+            let ms := keptMethods fns
             if ms.all (methodOkB P) then
               let tab := s.tab u ++ [(i, (base.toNat?, ms))]
               ({ s with svcs := (u, tab) :: s.svcs.filter (·.1 != u) }, "ok")
